@@ -1362,6 +1362,9 @@ def c08(tier, seed):
     return [Ob('io.mono.writer_errors', 'harness/h_io.c', 'h_io_mono_writer', unwind=6, small_path=True, timeout=900, mem=8, cost=5, object_bits=12,
                functions=['io_parity_write_mono (cmdline/io.c)', 'io_write_next_mono (cmdline/io.c)'],
                note='two parity levels, every outcome of each writer function; the writer function is a stub that sets the task state'),
+            Ob('io.writer_step.error_count', 'harness/h_io.c', 'h_io_writer_step', unwind=6, small_path=True, timeout=900, mem=8, cost=3, object_bits=12, replay=False,
+               functions=['io_writer_step (cmdline/io.c)'],
+               note='every task state, queue position, done flag and previous counter values; SEQUENTIAL semantics of one call (mutex / condition functions by stub) - thread interleavings are not covered'),
             Ob('sync.writer_errors.region', 'harness/h_sync.c', 'h_sync_werr', route='dfcc', replace=['info_set'], inject=[SYNC_COMPLETE, SYNC_WERR], defs={'VERIF_WERR_REGION': None}, unwind=8, small_path=True,
                timeout=900, mem=8, cost=5, replay=False,
                functions=['state_sync_process: region "handle errors reported" .. "mark the state as needing write" (cmdline/sync.c, extracted mechanically)'],
